@@ -165,7 +165,15 @@ func runCase(ops []string, forced []string, em *emitter) {
 	defer func() { eng.close() }()
 	loaded := false
 	nontriv := false
-	userFlows := func() int { return len(cfg.flows) }
+	userFlows := func() int {
+		n := len(cfg.flows)
+		for _, rf := range cfg.raws {
+			if rf.dir == "flows" {
+				n++
+			}
+		}
+		return n
+	}
 	for i, op := range ops {
 		em.line(fmt.Sprintf("B %d", i))
 		w := strings.Fields(op)
@@ -246,6 +254,14 @@ func runCase(ops []string, forced []string, em *emitter) {
 						cfg.flows = append(cfg.flows, f)
 						ans = "ok"
 					}
+				}
+			}
+		case "rawfile":
+			if len(w) == 3 {
+				_, okC := rawContents[w[2]]
+				if okC && (w[1] == "flows" || w[1] == "quotas" || w[1] == "path_params" || w[1] == "gateway") {
+					cfg.raws = append(cfg.raws, rawFile{dir: w[1], kind: w[2]})
+					ans = "ok"
 				}
 			}
 		case "connnull":
@@ -365,6 +381,10 @@ func runCase(ops []string, forced []string, em *emitter) {
 						return "reject:" + cl
 					}
 					return "reject"
+				}
+				if err := validateGateway(dir); err != nil {
+					em.line("K load-reject-gateway")
+					return "reject:gateway"
 				}
 				live, err := liveLoad(cfg)
 				if err != nil {
